@@ -247,6 +247,9 @@ func (vm *vm) run() error {
 
 		case opDEFBLOCK:
 			// ( -- )
+			if vm.blockTos == blockStackSize {
+				return vm.runtimeError("blocks nested too deep, max %d", blockStackSize)
+			}
 			blk := Block{
 				Type:   readConst().(string),
 				Name:   readConst().(string),
